@@ -908,7 +908,7 @@ func verifC17RbfCase(vc *lnwallet.VerifCtx, i int) {
 func TestVerifC17Rbf(t *testing.T) {
 	vc := lnwallet.VerifStart(t, "C17", "rbf")
 	defer vc.Finish()
-	total := vc.N(400, 4000)
+	total := vc.N(400, 28000)
 	for i := 0; i < total; i++ {
 		if !vc.Mine(i) {
 			continue
